@@ -125,6 +125,8 @@ def task(desc):
             r.set_script(names[0], desc["commands"][0], ["exit 1"], argv0=expect_exe[(names[0], desc["commands"][0])], nth=1)
         if "prior-failed" in ctx or "prior-ok" in ctx:
             r.mr(*args, env=r.trace_env())
+        if "verbose" in ctx:
+            r.global_flags = ["-vv"]
         if "listener" in ctx:
             import subprocess, time
             lis = subprocess.Popen([common.MONORAIL, "log", "tail", "--stdout", "--stderr"], cwd=r.dir, env=s.env(),
@@ -255,7 +257,7 @@ def scenarios(tier):
                         "args": None, "argdir": "default", "cmdsrc": "defmissing", "vocab": plain})
     # (2e) the surroundings of a run: an earlier failed / successful run's records on disk, a checkpoint with
     # every target changed since, a listener attached
-    for ctx in (["prior-failed"], ["prior-ok"], ["checkpoint"], ["listener"], ["prior-failed", "checkpoint", "listener"]):
+    for ctx in (["prior-failed"], ["prior-ok"], ["checkpoint"], ["listener"], ["verbose"], ["prior-failed", "checkpoint", "listener"]):
         for cmdsrc in ("default", "defpath"):
             for o in (None, ["m2", "m1"]):
                 files = [{"base": "args", "m1": "args", "m2": None}, {"base": "args", "m1": "nocmd", "m2": "args"}]
